@@ -264,6 +264,36 @@ def write_kani_crate(unit, spec, bdir, ex):
     return text
 
 
+def auto_extract(unit, spec, ex, compiler_output):
+    """A refactor may move part of an extracted function into a new helper.  When the generated crate
+    fails to compile with `no method named X` / `cannot find function X`, look X up in the impl blocks
+    the template declares //@autofns slots for and paste it verbatim.  Returns True if anything was added."""
+    names = set(re.findall(r'no method named `(\w+)` found', compiler_output))
+    names |= set(re.findall(r'no function or associated item named `(\w+)` found', compiler_output))
+    names |= set(re.findall(r'cannot find function `(\w+)` in this scope', compiler_output))
+    if not names:
+        return False
+    tmpl = open(os.path.join(unit['dir'], spec['template'])).read()
+    added = False
+    for mo in re.finditer(r'^\s*//@autofns\s+(.*)$', tmpl, re.M):
+        a = render._args(mo.group(1))
+        key = (a['file'], a.get('impl'))
+        try:
+            src = rsx.Src.load(REPO + '/' + a['file'])
+        except Exception:
+            continue
+        for nm in sorted(names):
+            if nm in ex.auto.get(key, []):
+                continue
+            try:
+                src.fn_item(nm, a.get('impl'))
+            except (rsx.LostAnchor, rsx.Unsupported):
+                continue
+            ex.auto.setdefault(key, []).append(nm)
+            added = True
+    return added
+
+
 def _write_if_changed(p, s):
     if os.path.exists(p) and open(p).read() == s:
         return
@@ -300,6 +330,15 @@ def run_kani(unit, spec, harnesses, pid, bdir, ex, jobs, tier):
     for h in harnesses:
         cmd += ['--harness', 'proofs::' + h['name']]
     rc, out, err, wall, to = sh(cmd, cwd=bdir, env=env, timeout=tmo * 2 + 600, mem_gb=spec.get('mem_gb', 14))
+    rounds = 0
+    while not os.path.exists(resj) and not to and rounds < 4 and auto_extract(unit, spec, ex, out + err):
+        rounds += 1
+        try:
+            text = write_kani_crate(unit, spec, bdir, ex)
+        except (rsx.LostAnchor, rsx.Unsupported):
+            break
+        rc, out, err, wall2, to = sh(cmd, cwd=bdir, env=env, timeout=tmo * 2 + 600, mem_gb=spec.get('mem_gb', 14))
+        wall += wall2
     info['wall_s'] = round(wall, 2)
     info['cmd'] = ' '.join(cmd)
     open(os.path.join(bdir, 'kani_stdout.log'), 'w').write(out + '\n---- stderr ----\n' + err)
